@@ -155,6 +155,22 @@ Lemma complete_finished k s n : finished (complete c k s n) = n :: finished s.
 Proof. destruct k; reflexivity. Qed.
 Lemma complete_skipped k s n : skipped (complete c k s n) = skipped s.
 Proof. destruct k; reflexivity. Qed.
+Lemma remove_node_conc s n : conc (remove_node c s n) = conc s.
+Proof. unfold remove_node. destruct (remove_root_node (c_preds c) (rem s) n). reflexivity. Qed.
+Lemma remove_node_asyn s n : asyn (remove_node c s n) = asyn s.
+Proof. unfold remove_node. destruct (remove_root_node (c_preds c) (rem s) n). reflexivity. Qed.
+Lemma remove_node_pc s n : pc (remove_node c s n) = pc s.
+Proof. unfold remove_node. destruct (remove_root_node (c_preds c) (rem s) n). reflexivity. Qed.
+Lemma remove_node_rem s n : rem (remove_node c s n) = remove1 n (rem s).
+Proof. reflexivity. Qed.
+Lemma remove_node_runnable s n : runnable (remove_node c s n) = union (runnable s) (snd (remove_root_node preds (rem s) n)).
+Proof. reflexivity. Qed.
+Lemma remove_node_started s n : started (remove_node c s n) = started s.
+Proof. unfold remove_node. destruct (remove_root_node (c_preds c) (rem s) n). reflexivity. Qed.
+Lemma remove_node_finished s n : finished (remove_node c s n) = finished s.
+Proof. unfold remove_node. destruct (remove_root_node (c_preds c) (rem s) n). reflexivity. Qed.
+Lemma remove_node_skipped s n : skipped (remove_node c s n) = skipped s.
+Proof. unfold remove_node. destruct (remove_root_node (c_preds c) (rem s) n). reflexivity. Qed.
 Lemma completes_pc k ns : forall s, pc (completes k s ns) = pc s.
 Proof. unfold completes. induction ns as [|n ns IH]; intros s; simpl; auto. rewrite IH. apply complete_pc. Qed.
 Lemma completes_started k ns : forall s, started (completes k s ns) = started s.
@@ -465,6 +481,255 @@ Proof.
     all: try (unfold after_dispatch; destruct (c_seq c n); cbn [lt_pc]; discriminate).
     all: try (intros E; exfalso; apply (Hp false); auto; fail).
   - constructor; cbn [set_pc mark_started conc asyn pc lt_pc]; auto; discriminate.
+Qed.
+
+(* ------------------------------------------------------------------ Inv3: sequential nodes run alone *)
+Definition infl (s : state) : list nat := conc s ++ asyn s.
+
+Record Inv3 (s : state) : Prop := {
+  q_excl : forall x, In x (infl s) -> c_seq c x = true ->
+           infl s = [x] /\ (pc s = PDrainA x \/ pc s = PDrainC x \/ pc s = PRaised x);
+  q_cur : forall n, (pc s = PActive n \/ pc s = PDisp n) -> c_seq c n = true -> infl s = [];
+  q_drain : forall n, (pc s = PDrainA n \/ pc s = PDrainC n) -> c_seq c n = true /\ forall x, In x (infl s) -> x = n;
+  q_drainc : forall n, pc s = PDrainC n -> asyn s = []
+}.
+
+Lemma init_Inv3 : Inv3 (init c).
+Proof. constructor; simpl; try tauto; try discriminate; intros n [H|H]; discriminate. Qed.
+
+Lemma infl_nil s : infl s = [] <-> conc s = [] /\ asyn s = [].
+Proof. unfold infl. split; [apply app_eq_nil|intros [-> ->]; auto]. Qed.
+Lemma running_infl s : running s = length (infl s).
+Proof. unfold running, infl. rewrite app_length. auto. Qed.
+
+Lemma infl_complete_sub k s n x : In x (infl (complete c k s n)) -> In x (infl s).
+Proof. unfold infl. rewrite complete_conc, complete_asyn, !in_app_iff. destruct k; rewrite ?In_remove1; tauto. Qed.
+
+Lemma infl_single_complete k s n : infl s = [n] -> In n (inflight s k) -> infl (complete c k s n) = [].
+Proof. unfold infl. rewrite complete_conc, complete_asyn. intros E Hn.
+  destruct (conc s) as [|a l] eqn:Ec; simpl in E.
+  - destruct k; simpl in Hn; rewrite ?Ec in Hn; [|simpl in Hn; tauto]. rewrite E. simpl. rewrite Nat.eqb_refl. reflexivity.
+  - inversion E; subst. apply app_eq_nil in H1. destruct H1 as [-> Ha]. rewrite Ha in *.
+    destruct k; simpl in Hn; rewrite ?Ha in Hn; [simpl in Hn; tauto|]. simpl. rewrite Nat.eqb_refl. reflexivity. Qed.
+
+(* while a wait is in progress (pc fixed, not PActive/PDisp), each completion preserves Inv3 *)
+Lemma complete_Inv3 k s n : Inv3 s -> In n (inflight s k) -> Inv3 (complete c k s n).
+Proof.
+  intros [Qa Qb Qc Qd] Hn.
+  assert (Hni : In n (infl s)) by (unfold infl; rewrite in_app_iff; destruct k; simpl in Hn; auto).
+  constructor; rewrite ?complete_pc.
+  - intros x Hx Hseq. exfalso. pose proof (infl_complete_sub _ _ _ _ Hx) as Hin.
+    destruct (Qa x Hin Hseq) as [E _]. rewrite E in Hni. simpl in Hni. destruct Hni as [<-|[]].
+    rewrite (infl_single_complete k s x E Hn) in Hx. simpl in Hx. auto.
+  - intros m Hp Hseq. specialize (Qb m Hp Hseq). rewrite Qb in Hni. simpl in Hni. tauto.
+  - intros m Hp. destruct (Qc m Hp) as [Hs Hall]. split; auto. intros x Hx.
+    apply infl_complete_sub in Hx. apply Hall. tauto.
+  - intros m Hp. rewrite complete_asyn. specialize (Qd m Hp). destruct k; auto. rewrite Qd. reflexivity.
+Qed.
+
+Lemma completes_Inv3 k ns s : Inv3 s ->
+  (forall pre n post, ns = pre ++ n :: post -> In n (inflight (completes k s pre) k)) ->
+  Inv3 (completes k s ns).
+Proof. intros. apply (completes_ind Inv3 k); auto. intros; apply complete_Inv3; auto. Qed.
+
+Lemma completes_infl_sub k ns : forall s x, In x (infl (completes k s ns)) -> In x (infl s).
+Proof. unfold completes. induction ns as [|n ns IH]; intros s x H; simpl in *; auto.
+  apply IH in H. apply infl_complete_sub in H. auto. Qed.
+
+Ltac pc_contra Qa Hpc :=
+  match goal with
+  | [ Hs : c_seq c ?x = true |- _ ] =>
+      let E := fresh "E" in
+      destruct (Qa x ltac:(assumption) Hs) as [_ [E|[E|E]]]; rewrite Hpc in E; discriminate
+  end.
+
+Lemma inflight_infl s k x : In x (inflight s k) -> In x (infl s).
+Proof. unfold infl. rewrite in_app_iff. destruct k; simpl; auto. Qed.
+
+(* after a wait at site (k, m, nx) whose result state s1 satisfies Inv3 with the wait's pc *)
+Lemma wait_done_Inv3 s k m nx s1 dones :
+  wait_site s k m nx -> Inv3 s1 -> pc s1 = pc s ->
+  conc s1 = conc s1 -> (m = MAll -> inflight s1 k = []) -> (k = KA -> m = MFirst -> True) ->
+  Inv3 (set_pc s1 (nx dones s1)).
+Proof.
+  intros W [Qa Qb Qc Qd] Hpc _ Hall _.
+  assert (Hnx : forall n, nx dones s1 <> PActive n /\ nx dones s1 <> PDisp n /\ nx dones s1 <> PDrainA n).
+  { intros n. destruct W; repeat split; try discriminate; unfold after_gate; destruct (isnil (runnable s1)); discriminate. }
+  constructor; cbn [set_pc pc]; unfold infl in *; cbn [set_pc conc asyn] in *.
+  - intros x Hx Hs. destruct (Qa x Hx Hs) as [E [P|[P|P]]]; rewrite Hpc in P.
+    + destruct W; rewrite P in *; try discriminate. inversion H; subst. auto.
+    + exfalso. destruct W; rewrite P in *; try discriminate. inversion H; subst.
+      specialize (Hall eq_refl). cbn [inflight] in Hall. rewrite (Qd n) in Hx by (rewrite Hpc; auto).
+      rewrite Hall in Hx. simpl in Hx. auto.
+    + exfalso. destruct W; rewrite P in *; discriminate.
+  - intros n [P|P]; exfalso; destruct (Hnx n) as [A [B _]]; auto.
+  - intros n [P|P]; [exfalso; destruct (Hnx n) as [_ [_ C]]; auto|].
+    destruct W; try discriminate; try (unfold after_gate in P; destruct (isnil (runnable s1)); discriminate).
+    inversion P; subst. apply Qc. left. rewrite Hpc. auto.
+  - intros n P.
+    destruct W; try discriminate; try (unfold after_gate in P; destruct (isnil (runnable s1)); discriminate).
+    specialize (Hall eq_refl). cbn [inflight] in Hall. auto.
+Qed.
+
+Lemma trans_Inv3 s l s' : Inv3 s -> trans s l s' -> Inv3 s'.
+Proof.
+  intros I T. pose proof I as [Qa Qb Qc Qd]. destruct T.
+  - constructor; cbn [set_pc pc]; unfold infl in *; cbn [set_pc conc asyn] in *; try discriminate.
+    + intros x Hx Hs. pc_contra Qa H.
+    + intros n [P|P]; discriminate.
+    + intros n [P|P]; discriminate.
+  - (* empty wait *) apply (wait_done_Inv3 s k m nx s []); auto; try (intros E; subst; cbn [inflight] in *; auto).
+  - (* wait ok *) subst s1. apply (wait_done_Inv3 s k m nx _ dones); auto.
+    + apply completes_Inv3; auto.
+    + apply completes_pc.
+  - (* wait fail *) subst s1.
+    pose proof (completes_Inv3 k ns s I H3) as [Ra Rb Rc Rd].
+    constructor; cbn [set_pc pc]; unfold infl in *; cbn [set_pc conc asyn] in *; try discriminate.
+    + intros x Hx Hs. destruct (Ra x Hx Hs) as [E _]. split; auto. right; right.
+      apply inflight_infl in H4. unfold infl in H4. rewrite E in H4. simpl in H4. destruct H4 as [<-|[]]. reflexivity.
+    + intros n [P|P]; discriminate.
+    + intros n [P|P]; discriminate.
+  - (* defer *)
+    assert (Hpc : pc s = PPick \/ pc s = PTop) by tauto.
+    constructor; cbn [set_pc pc]; unfold infl in *; cbn [set_pc conc asyn] in *; try discriminate.
+    + intros x Hx Hs. destruct Hpc as [P|P]; pc_contra Qa P.
+    + intros m [P|P]; discriminate.
+    + intros m [P|P]; discriminate.
+  - (* take *)
+    assert (Hpc : pc s = PPick \/ pc s = PTop) by tauto.
+    constructor; cbn [set_pc pc]; unfold infl in *; cbn [set_pc take_runnable conc asyn] in *; try discriminate.
+    + intros x Hx Hs. destruct Hpc as [P|P]; pc_contra Qa P.
+    + intros m [P|P] Hs; inversion P; subst. specialize (H1 Hs). rewrite running_infl in H1.
+      unfold infl in H1. destruct (conc s ++ asyn s); [auto|discriminate].
+    + intros m [P|P]; discriminate.
+  - (* active *)
+    constructor; cbn [set_pc pc]; unfold infl in *; cbn [set_pc conc asyn] in *; try discriminate.
+    + intros x Hx Hs. pc_contra Qa H.
+    + intros m [P|P] Hs; inversion P; subst. apply (Qb m); auto.
+    + intros m [P|P]; discriminate.
+  - (* skip *)
+    constructor; cbn [set_pc pc]; unfold infl in *;
+      cbn [set_pc mark_skipped conc asyn] in *; rewrite ?remove_node_conc, ?remove_node_asyn in *; try discriminate.
+    + intros x Hx Hs. pc_contra Qa H.
+    + intros m [P|P]; discriminate.
+    + intros m [P|P]; discriminate.
+  - (* submit thread *)
+    assert (Hnx : forall m, after_dispatch c n <> PActive m /\ after_dispatch c n <> PDisp m /\ after_dispatch c n <> PDrainC m)
+      by (intros m; unfold after_dispatch; destruct (c_seq c n); repeat split; discriminate).
+    constructor; cbn [set_pc pc]; unfold infl in *; cbn [set_pc mark_started set_inflight conc asyn] in *.
+    + intros x Hx Hs. simpl in Hx. destruct Hx as [<-|Hx]; [|pc_contra Qa H].
+      assert (E : conc s ++ asyn s = []) by (apply (Qb n); auto).
+      apply app_eq_nil in E. destruct E as [-> ->]. split; auto. left. unfold after_dispatch. rewrite Hs. auto.
+    + intros m [P|P]; exfalso; destruct (Hnx m) as [A [B _]]; auto.
+    + intros m [P|P]; [|exfalso; destruct (Hnx m) as [_ [_ C]]; auto].
+      unfold after_dispatch in P. destruct (c_seq c n) eqn:Hs; [|discriminate]. inversion P; subst. split; auto.
+      assert (E : conc s ++ asyn s = []) by (apply (Qb m); auto).
+      apply app_eq_nil in E. destruct E as [-> ->]. simpl. intros x [<-|[]]; auto.
+    + intros m P. exfalso; destruct (Hnx m) as [_ [_ C]]; auto.
+  - (* submit async *)
+    assert (Hnx : forall m, after_dispatch c n <> PActive m /\ after_dispatch c n <> PDisp m /\ after_dispatch c n <> PDrainC m)
+      by (intros m; unfold after_dispatch; destruct (c_seq c n); repeat split; discriminate).
+    constructor; cbn [set_pc pc]; unfold infl in *; cbn [set_pc mark_started set_inflight conc asyn] in *.
+    + intros x Hx Hs. rewrite in_app_iff in Hx. simpl in Hx.
+      assert (Hx' : x = n \/ In x (conc s ++ asyn s)) by (rewrite in_app_iff; destruct Hx as [Hx|[Hx|Hx]]; auto). clear Hx.
+      destruct Hx' as [->|Hx]; [|pc_contra Qa H].
+      assert (E : conc s ++ asyn s = []) by (apply (Qb n); auto).
+      apply app_eq_nil in E. destruct E as [-> ->]. split; auto. left. unfold after_dispatch. rewrite Hs. auto.
+    + intros m [P|P]; exfalso; destruct (Hnx m) as [A [B _]]; auto.
+    + intros m [P|P]; [|exfalso; destruct (Hnx m) as [_ [_ C]]; auto].
+      unfold after_dispatch in P. destruct (c_seq c n) eqn:Hs; [|discriminate]. inversion P; subst. split; auto.
+      assert (E : conc s ++ asyn s = []) by (apply (Qb m); auto).
+      apply app_eq_nil in E. destruct E as [-> ->]. simpl. intros x [<-|[]]; auto.
+    + intros m P. exfalso; destruct (Hnx m) as [_ [_ C]]; auto.
+  - (* inline ok *)
+    assert (Hnx : forall m, after_dispatch c n <> PActive m /\ after_dispatch c n <> PDisp m /\ after_dispatch c n <> PDrainC m)
+      by (intros m; unfold after_dispatch; destruct (c_seq c n); repeat split; discriminate).
+    constructor; cbn [set_pc pc]; unfold infl in *;
+      cbn [set_pc mark_finished conc asyn] in *; rewrite ?remove_node_conc, ?remove_node_asyn in *;
+      cbn [mark_started conc asyn] in *.
+    + intros x Hx Hs. pc_contra Qa H.
+    + intros m [P|P]; exfalso; destruct (Hnx m) as [A [B _]]; auto.
+    + intros m [P|P]; [|exfalso; destruct (Hnx m) as [_ [_ C]]; auto].
+      unfold after_dispatch in P. destruct (c_seq c n) eqn:Hs; [|discriminate]. inversion P; subst. split; auto.
+      assert (E : conc s ++ asyn s = []) by (apply (Qb m); auto). rewrite E. simpl. tauto.
+    + intros m P. exfalso; destruct (Hnx m) as [_ [_ C]]; auto.
+  - (* inline fail *)
+    constructor; cbn [set_pc pc]; unfold infl in *; cbn [set_pc mark_started conc asyn] in *; try discriminate.
+    + intros x Hx Hs. pc_contra Qa H.
+    + intros m [P|P]; discriminate.
+    + intros m [P|P]; discriminate.
+Qed.
+
+(* ------------------------------------------------------------------ the combined invariant *)
+Record Inv (s : state) : Prop := {
+  inv1 : alive s -> Inv1 s;
+  inv2 : Inv2 s;
+  inv3 : Inv3 s
+}.
+
+Lemma trans_alive s l s' : trans s l s' -> alive s.
+Proof.
+  intros T n E. destruct T;
+    try (match goal with [ W : wait_site _ _ _ _ |- _ ] => destruct W end);
+    try (match goal with [ H : _ \/ _ |- _ ] => destruct H as [H|[H _]] end); congruence.
+Qed.
+
+Lemma init_Inv : wf -> Inv (init c).
+Proof. intros W. constructor; [intros _; apply init_Inv1; auto|apply init_Inv2; auto|apply init_Inv3]. Qed.
+
+Lemma trans_Inv s l s' : wf -> Inv s -> trans s l s' -> Inv s'.
+Proof. intros W [I1 I2 I3] T. pose proof (trans_alive _ _ _ T) as A. constructor.
+  - intros A'. apply (trans_Inv1 s l s'); auto.
+  - apply (trans_Inv2 s l s'); auto.
+  - apply (trans_Inv3 s l s'); auto. Qed.
+
+Lemma run_preserves (P : state -> Prop) :
+  (forall s l s', P s -> step c s l = Some s' -> P s') ->
+  forall ls s s', P s -> run c s ls = Some s' -> P s'.
+Proof. intros Hs. induction ls as [|l ls IH]; intros s s' HP H; simpl in H.
+  - inversion H; subst; auto.
+  - destruct (step c s l) as [s1|] eqn:E; [|discriminate]. apply (IH s1); auto. apply (Hs s l); auto. Qed.
+
+Theorem reachable_Inv s : wf -> reachable c s -> Inv s.
+Proof. intros W [ls H]. apply (run_preserves Inv) with (ls := ls) (s := init c); auto.
+  - intros s0 l s1 I E. apply (trans_Inv s0 l s1); auto. apply step_trans; auto.
+  - apply init_Inv; auto. Qed.
+
+Lemma run_app ls1 : forall ls2 s, run c s (ls1 ++ ls2) = match run c s ls1 with Some s1 => run c s1 ls2 | None => None end.
+Proof. induction ls1 as [|l ls1 IH]; intros ls2 s; simpl; auto. destruct (step c s l); auto. Qed.
+
+(* ------------------------------------------------------------------ C04 *)
+Theorem inflight_bounded s : wf -> reachable c s ->
+  length (conc s) + length (asyn s) <= c_maxc c /\
+  (forall x, In x (conc s) -> c_res c x = RThread) /\
+  (forall x, In x (asyn s) -> c_res c x = RAsync).
+Proof. intros W R. destruct (reachable_Inv s W R) as [_ [Ja Jb Jc _ _] _]. unfold running in Jc. auto. Qed.
+
+(* main-thread nodes are only ever executed by the inline transition, pooled nodes never are *)
+Theorem inline_only_main s n ok s' : step c s (LInline n ok) = Some s' -> c_res c n = RMain.
+Proof. intros H. apply step_trans in H. inversion H; subst; auto. Qed.
+Theorem submit_matches_resource s k n s' : step c s (LSubmit k n) = Some s' ->
+  c_res c n = match k with KC => RThread | KA => RAsync end.
+Proof. intros H. apply step_trans in H. inversion H; subst; auto. Qed.
+
+(* ------------------------------------------------------------------ C05 *)
+Theorem sequential_exclusive s x : wf -> reachable c s -> In x (conc s ++ asyn s) -> c_seq c x = true ->
+  conc s ++ asyn s = [x] /\ (pc s = PDrainA x \/ pc s = PDrainC x \/ pc s = PRaised x).
+Proof. intros W R Hx Hs. destruct (reachable_Inv s W R) as [_ _ [Qa _ _ _]]. apply Qa; auto. Qed.
+
+(* a sequential node is dispatched (also inline) only when nothing is in flight *)
+Theorem sequential_starts_alone s n : wf -> reachable c s -> (pc s = PActive n \/ pc s = PDisp n) ->
+  c_seq c n = true -> conc s ++ asyn s = [].
+Proof. intros W R Hp Hs. destruct (reachable_Inv s W R) as [_ _ [_ Qb _ _]]. apply (Qb n); auto. Qed.
+
+(* while a sequential node is in flight the only enabled labels are the drain waits *)
+Theorem sequential_blocks_dispatch s x l s' : wf -> reachable c s -> In x (conc s ++ asyn s) -> c_seq c x = true ->
+  step c s l = Some s' -> exists k dones, l = LWait k MAll dones.
+Proof.
+  intros W R Hx Hs H. destruct (sequential_exclusive s x W R Hx Hs) as [_ [P|[P|P]]];
+    unfold step in H; rewrite P in H; destruct l; try discriminate.
+  - destruct k; try discriminate. destruct m; try discriminate. eauto.
+  - destruct k; try discriminate. destruct m; try discriminate. eauto.
 Qed.
 
 End Inv.
